@@ -19,6 +19,8 @@ NA = {}
 
 C10_H = ["manifest/c10_kernel.go", "manifest/c10_text.go"]
 C10_AH = ["arvados/c10_load.go", "arvados/fskeep.go"]
+C07_KH = ["keepstore/c07_handler.go", "keepstore/c01_stub.go", "keepstore/util.go"]
+C07_STUBS = ["(*git.arvados.org/arvados.git/services/keepstore.bufferPool).Get=gosymBufGet", "(*git.arvados.org/arvados.git/services/keepstore.bufferPool).Put=gosymBufPut"]
 SPECS["C10"] = dict(
     level="model_checking",
     outside="manifests larger than the stated block/token counts; python keep.py/arvfile.py callers",
@@ -95,8 +97,6 @@ SPECS["C12"] = dict(
     ],
 )
 
-C07_KH = ["keepstore/c07_handler.go", "keepstore/c01_stub.go", "keepstore/util.go"]
-C07_STUBS = ["(*git.arvados.org/arvados.git/services/keepstore.bufferPool).Get=gosymBufGet", "(*git.arvados.org/arvados.git/services/keepstore.bufferPool).Put=gosymBufPut"]
 SPECS["C07"] = dict(
     level="model_checking",
     outside="tokens longer than 4 bytes, keys longer than 3 bytes; expiries below 2^28 (Ruby does not zero-pad); the Rails implementation itself (blob.rb is the written reference); perturbation harness uses one TTL (2 weeks) and 24 concrete hash digits",
@@ -136,9 +136,10 @@ SPECS["C19"] = dict(
     ],
 )
 
+C01_HH = ["keepstore/c01_handler.go", "keepstore/c07_handler.go", "keepstore/c01_stub.go", "keepstore/util.go"]
 SPECS["C01"] = dict(
     level="model_checking",
-    outside="blocks longer than 2 (quick) / 3 (thorough) bytes; the HTTP server and mux routing; non-Directory drivers; Serialize-lock timing",
+    outside="blocks longer than 2 (quick) / 3 (thorough) bytes; the HTTP server and mux routing (handlers are driven directly, route variables attached; the 64 MiB buffer pool is stubbed with 8-byte buffers); non-Directory drivers; Serialize-lock timing",
     assumptions=["MD5 modelled as an uninterpreted function per input length with collision-freeness on the applications that occur",
                  "stub volumes obey the Volume contract (Get copies min(len(buf), stored length) bytes; Put overwrites; Touch keeps)"],
     runs=[
@@ -148,6 +149,10 @@ SPECS["C01"] = dict(
              params=dict(quick=dict(maxlen=1, volumes=2), thorough=dict(maxlen=2, volumes=2)), witnesses=["put-ok", "put-error", "put-hash-mismatch"]),
         dict(name="put-1vol", pkg="services/keepstore", harness=["keepstore/c01_stub.go"], entry="GosymH_C01_put",
              params=dict(quick=dict(maxlen=2, volumes=1), thorough=dict(maxlen=3, volumes=1)), witnesses=["put-ok", "put-error", "put-hash-mismatch"]),
+        dict(name="handler-get", pkg="services/keepstore", harness=C01_HH, entry="GosymH_C01_handler_get", replay="engine", stubs=C07_STUBS,
+             params=dict(quick=dict(maxlen=1, volumes=2), thorough=dict(maxlen=2, volumes=2)), witnesses=["served", "refused"]),
+        dict(name="handler-put", pkg="services/keepstore", harness=C01_HH, entry="GosymH_C01_handler_put", replay="engine", stubs=C07_STUBS,
+             params=dict(quick=dict(maxlen=1, volumes=2), thorough=dict(maxlen=2, volumes=2)), witnesses=["acknowledged", "refused"]),
     ],
 )
 
